@@ -72,8 +72,8 @@ def _r8(chk: Check, R8: str) -> None:
         se = SymExec(F, fi)
         paths = se.run()
         allp = list(paths)
-        for p in paths[:1]:
-            for c in p.closures:
+        for c in om.all_closures(paths):
+            if True:
                 allp += closure_paths(F, fi, c)
         for p in allp:
             for e in p.events:
